@@ -85,3 +85,58 @@ Proof.
   - rewrite imp_NewIndex, Hn. reflexivity.
   - intros i. rewrite imp_Index_At, Ha. reflexivity.
 Qed.
+
+(* ---- newick: PreOrder / PostOrder ------------------------------------------------------------------------------ *)
+From Bio.Model Require Newick.
+From Bio.Spec Require NewickSpec.
+From Bio.Proofs Require NewickProofs ImpProofsI.
+
+Theorem traverse_orders_src fuel t : (2 * Newick.size t + 2 < fuel)%nat ->
+  imp_newick_Node_traverse fuel (ImpProofsI.node_of t) true = Ret (map ImpProofsI.nd (NewickSpec.preorder t))
+  /\ imp_newick_Node_traverse fuel (ImpProofsI.node_of t) false = Ret (map ImpProofsI.nd (NewickSpec.postorder t)).
+Proof.
+  intros Hf. split.
+  - apply ImpProofsI.imp_traverse; [exact Hf | apply NewickProofs.traverse_preorder].
+  - apply ImpProofsI.imp_traverse; [exact Hf | apply NewickProofs.traverse_postorder].
+Qed.
+
+(* ---- sequtil: the 2-bit packing, both ways ------------------------------------------------------------------- *)
+From Bio.Proofs Require SeqProofsB ImpProofsB TranslateProofs.
+
+Lemma dna8_all_bytes s : TranslateProofs.dna8 s -> all_bytes s.
+Proof.
+  intros H. unfold all_bytes. eapply Forall_impl; [|exact H]. intros b Hb. unfold is_byte.
+  unfold SeqSpec.is_dna8, SeqSpec.base_index in Hb.
+  repeat match type of Hb with context [N.eqb b ?c] => destruct (N.eqb_spec b c); [subst; lia|] end.
+  discriminate.
+Qed.
+
+Theorem to_from_src p : Forall (fun b => (b < 256)%N) p ->
+  exists s, imp_sequtil_DNAFrom2Bit [] p = Ret s /\ imp_sequtil_DNATo2Bit [] s = Ret p.
+Proof.
+  intros Hp. destruct (SeqProofsB.to_from p Hp) as (s & H1 & H2).
+  assert (Hs : TranslateProofs.dna8 s).
+  { unfold TranslateProofs.dna8. apply Forall_forall. intros b Hb.
+    destruct (SeqSpec.is_dna8 b) eqn:E; [reflexivity|]. exfalso.
+    assert (X : Seq.to2bit [] s = Panic).
+    { apply SeqProofsB.to2bit_panics_iff. apply Exists_exists. exists b. auto. }
+    congruence. }
+  exists s. rewrite (imp_DNAFrom2Bit [] p Hp), H1. rewrite (ImpProofsB.imp_DNATo2Bit [] s (dna8_all_bytes s Hs)), H2.
+  split; reflexivity.
+Qed.
+
+Theorem from_to_src s : TranslateProofs.dna8 s ->
+  exists p, imp_sequtil_DNATo2Bit [] s = Ret p /\
+    imp_sequtil_DNAFrom2Bit [] p
+    = Ret (map upper_byte s ++ repeat 65%N (Nat.modulo (4 - Nat.modulo (length s) 4) 4)).
+Proof.
+  intros Hs. destruct (SeqProofsB.from_to s Hs) as (p & H1 & H2).
+  assert (Hp : all_bytes p).
+  { unfold all_bytes. apply Forall_forall. intros b Hb. unfold is_byte.
+    destruct (N.ltb_spec b 256) as [L|L]; [exact L|]. exfalso.
+    assert (X : Seq.from2bit [] p = Panic).
+    { apply SeqProofsB.from2bit_panics_iff. apply Exists_exists. exists b. auto. }
+    congruence. }
+  exists p. rewrite (ImpProofsB.imp_DNATo2Bit [] s (dna8_all_bytes s Hs)), H1.
+  rewrite (imp_DNAFrom2Bit [] p Hp), H2. split; reflexivity.
+Qed.
